@@ -289,6 +289,22 @@ def Verified (s : VoteSet) (v : Vote) : Prop :=
   (∃ p, s.vals[v.idx.toNat]? = some (v.addr, p)) ∧
   getVote s v.idx.toNat v.block.key = none ∧ v.sigOk = true
 
+/-- The checks of `addVote` other than "do we already know this vote": what makes a vote a
+valid vote of validator `v.idx` for this height/round/type. -/
+def PassesChecks (s : VoteSet) (v : Vote) : Prop :=
+  0 ≤ v.idx ∧ v.height = s.height ∧ v.round = s.round ∧ v.type = s.type ∧
+  (∃ p, s.vals[v.idx.toNat]? = some (v.addr, p)) ∧ v.sigOk = true
+
+/-- All votes of validator `i` the vote set holds (canonical or counted under any key). -/
+def knownVotes (s : VoteSet) (i : Nat) : List Vote :=
+  (at? s.votes i).toList ++ s.vbb.filterMap (fun kb => at? kb.2.votes i)
+
+/-- Power of the validators whose counted vote is for the BlockID `b` itself (not just for its key). -/
+def countedForBlock (s : VoteSet) (b : BlockID) : Nat :=
+  match alGet b.key s.vbb with
+  | some bv => sumPow s.vals (bv.votes.map fun o => o.filter fun v => decide (v.block = b))
+  | none => 0
+
 /-- Some peer claimed (`SetPeerMaj23`) a block with key `k`. -/
 def PeerClaimed (s : VoteSet) (k : Nat) : Prop := ∃ p b, alGet p s.peerMaj23s = some b ∧ b.key = k
 
